@@ -1,8 +1,9 @@
-CONSTANTS LimbBits = 16  NLimbs = 4  PB = 12  MaxOps = 2  MaxPairs = 16  Bug = ""  Emit = TRUE
+CONSTANTS LimbBits = 16  NLimbs = 4  PB = 12  MaxOps = 2  Bug = ""  Emit = TRUE
   OpKinds = {"reserve", "mapregion", "identity"}
+  Budgets = {2}
   Props = {"C07"}
 CONSTANT Top <- MCTop64
-CONSTANT SizesFor <- MCSizes64
+CONSTANT SizesFor <- MCSizes64Q
 CONSTANT Frames <- MCFrames64
 INIT Init
 NEXT Next
